@@ -1,5 +1,6 @@
 import BobModel.Props.C01
 import BobModel.Proofs.C05Emit
+import BobModel.Proofs.C05Rerun
 /-
 C05 — failed or killed builds never poison the workspace: property theorems about the builder model
 (Model/Builder.lean).  Definitions (`Truthful`, `Loc`, `AllWF` ...) and lemmas live in Proofs/C01*.lean.
@@ -119,11 +120,12 @@ theorem unclaimed_step_is_rerun (E : Env) (cfg : Cfg) (i : Info) (pre ds : List 
 
 /-- the log-level reading of "Bob never treats a step as up to date whose workspace was left
 incomplete": after a cut inside the script of `p`, the next successful invocation of a project that
-contains a step at `p` starts that script again.  Kept as goal: proved are its parts,
-`cut_in_script_unclaimed` (nothing is claimed at such a cut), `unclaimed_step_is_rerun` (then every
-skip test of the step fails) and `abort_then_cook_eq_clean` (the next successful invocation leaves the
-from-scratch content in `p`); not proved is the composition through the depth-first driver (that
-no other step touches the components of `p` before its own step is cooked). -/
+contains a step at `p` starts that script again.  As stated - for EVERY flag set `cfg'` of the second
+invocation - this is false of the model and of the implementation (`no_false_uptodate_refuted`): an
+invocation with `--checkout-only` (or `--no-deps`) that does not request the step at `p` at all
+succeeds without touching it.  Proved with the hypothesis that the second invocation requests all
+steps (`cfg'.noDeps = false`; `cfg'.checkoutOnly = true` only if the step at `p` is a checkout step):
+`no_false_uptodate_partial`. -/
 def no_false_uptodate_goal : Prop :=
   ∀ (E : Env) (dev : Bool) (Γ : Path → List (Dir × Digest)) (cfg cfg' : Cfg) (T T' : Step) (fuel fuel' : Nat) (st : St)
     (p : Path) (r' : Run),
@@ -132,5 +134,82 @@ def no_false_uptodate_goal : Prop :=
     (∃ u ∈ reach T', u.path = p) →
     invoke E cfg' T' fuel' (invoke E cfg T fuel st).st = .ok () r' →
     Op.scriptBegin p ∈ r'.log
+
+open C01.Example in
+theorem ex_bLib_reach (w s : String) : ∃ u ∈ reach (pApp w s), u.path = "build/lib" := by
+  refine ⟨bLib, ?_, by simp [Step.path, Step.info, bLib, mkInfo]⟩
+  have h := self_mem_reach bLib
+  simp [reach, reachL, pApp, bApp, pLib, h]
+
+open C01.Example in
+/-- the goal is false for arbitrary flags of the second invocation.  Witness (example project of
+`Props/C01.lean`, develop mode): `bob dev app` killed while the build script of `build/lib` runs
+(cut after 25 micro-operations), then `bob dev --checkout-only app`: it succeeds and - correctly -
+does not run the build step.  The same happens with `--no-deps` for a step of another package. -/
+theorem no_false_uptodate_refuted : ¬ no_false_uptodate_goal := by
+  intro h
+  have hlast : (invoke exE devCfg (pApp "w" "s") 25 St.init).log.getLast? = some (.scriptBegin "build/lib") := by
+    decide +kernel
+  have hok : (invoke exE { checkoutOnly := true } (pApp "w" "s") 1000
+      (invoke exE devCfg (pApp "w" "s") 25 St.init).st).isOk = true := by
+    decide +kernel
+  have hno : Op.scriptBegin "build/lib" ∉ (invoke exE { checkoutOnly := true } (pApp "w" "s") 1000
+      (invoke exE devCfg (pApp "w" "s") 25 St.init).st).log := by
+    decide +kernel
+  cases hB : invoke exE { checkoutOnly := true } (pApp "w" "s") 1000 (invoke exE devCfg (pApp "w" "s") 25 St.init).st with
+  | abort r => rw [hB] at hok; cases hok
+  | ok a rB =>
+    rw [hB] at hno
+    apply hno
+    exact h exE true exΓ devCfg { checkoutOnly := true } (pApp "w" "s") (pApp "w" "s") 25 1000 St.init "build/lib" rB
+      ex_inj (truthful_init _ _ _) (ex_wf _ _).wf (ex_wf _ _) hlast
+      (ex_bLib_reach _ _) hB
+
+/-- **an unclaimed workspace is cooked again**, through the depth-first driver: from ANY state that
+claims nothing about workspace `p`, a successful invocation that requests the step at `p` (no
+`--no-deps`; `--checkout-only` only if the step at `p` is a checkout step) of any project that reaches
+a step at `p` starts the script of `p`.  No hypothesis on the environment, the scripts, the state or
+the first project. -/
+theorem unclaimed_workspace_is_rerun (E : Env) (Γ : Path → List (Dir × Digest)) (cfg' : Cfg) (T' : Step) (fuel' : Nat)
+    (st : St) (p : Path) (r' : Run) (hwf : TreeWF Γ T') (hnd : cfg'.noDeps = false)
+    (hnc : NoClaim st p)
+    (hp : ∃ u ∈ reach T', u.path = p ∧ (cfg'.checkoutOnly = true → u.kind = .checkout))
+    (h : invoke E cfg' T' fuel' st = .ok () r') :
+    Op.scriptBegin p ∈ r'.log := by
+  obtain ⟨u, hu, hpu, hco⟩ := hp
+  exact rerun_of_unclaimed hwf hnd st hnc fuel' r' h u hu hpu hco
+
+/-- **no false up-to-date** (`no_false_uptodate_goal` with the added hypothesis that the second
+invocation requests the step at `p`: `cfg'.noDeps = false`, and `cfg'.checkoutOnly = true` only if
+the step at `p` is a checkout step): after a cut - kill, fuel, failing script - right after the begin
+or the end of the script of workspace `p`, the next successful invocation of any project containing
+a step at `p` starts that script again.  The hypotheses `Function.Injective E.H`, `Truthful`,
+`AllWF Γ T` of the goal are not needed. -/
+theorem no_false_uptodate_partial (E : Env) (Γ : Path → List (Dir × Digest)) (cfg cfg' : Cfg) (T T' : Step)
+    (fuel fuel' : Nat) (st : St) (p : Path) (r' : Run) (hwf : TreeWF Γ T')
+    (hnd : cfg'.noDeps = false)
+    (hlast : (invoke E cfg T fuel st).log.getLast? = some (.scriptBegin p) ∨
+      ∃ ok, (invoke E cfg T fuel st).log.getLast? = some (.scriptEnd p ok))
+    (hp : ∃ u ∈ reach T', u.path = p ∧ (cfg'.checkoutOnly = true → u.kind = .checkout))
+    (h : invoke E cfg' T' fuel' (invoke E cfg T fuel st).st = .ok () r') :
+    Op.scriptBegin p ∈ r'.log :=
+  unclaimed_workspace_is_rerun E Γ cfg' T' fuel' _ p r' hwf hnd
+    (cut_in_script_unclaimed E cfg T fuel st p hlast) hp h
+
+open C01.Example in
+/-- the hypotheses of `no_false_uptodate_partial` are satisfiable: the example project, killed while
+the build script of `build/lib` runs, then built again -/
+example : ∃ rB, invoke exE devCfg (pApp "w" "s") 1000 (invoke exE devCfg (pApp "w" "s") 25 St.init).st = .ok () rB ∧
+    Op.scriptBegin "build/lib" ∈ rB.log := by
+  have hlast : (invoke exE devCfg (pApp "w" "s") 25 St.init).log.getLast? = some (.scriptBegin "build/lib") := by
+    decide +kernel
+  have hok : (invoke exE devCfg (pApp "w" "s") 1000 (invoke exE devCfg (pApp "w" "s") 25 St.init).st).isOk = true := by
+    decide +kernel
+  cases hB : invoke exE devCfg (pApp "w" "s") 1000 (invoke exE devCfg (pApp "w" "s") 25 St.init).st with
+  | abort r => rw [hB] at hok; cases hok
+  | ok a rB =>
+    exact ⟨rB, rfl, no_false_uptodate_partial exE exΓ devCfg devCfg (pApp "w" "s") (pApp "w" "s") 25 1000 St.init
+      "build/lib" rB (ex_wf _ _) rfl (Or.inl hlast)
+      (by obtain ⟨u, hu, hpu⟩ := ex_bLib_reach "w" "s"; exact ⟨u, hu, hpu, fun h => by cases h⟩) hB⟩
 
 end C05
